@@ -125,7 +125,7 @@ def main():
     run = Run(PID, tier)
     cache = FnCache()
     from harness.lie import prelude as _prelude
-    _prelude(run, report=())
+    _prelude(run, report=("log",))
     from harness import history as _history      # engine H: call histories in fresh interpreters (spec/LieHistory.tla)
     if _history.hook(run, tier, {"log", "log_after_extend"}):
         return run.finish()
